@@ -354,7 +354,7 @@ fn call<const N: usize>(g: &mut Sodg<N>, clean: Option<Model>, op: &VOp, counter
                 }
             }
             // if the graph is not what the model says, other properties judge that; stop demanding
-            if guarded(|| g.keys()).ok() != Some(m.keys()) {
+            if guarded(|| crate::real::keys_sorted(g)).ok() != Some(m.keys()) {
                 return (None, None);
             }
             (None, Some(m))
